@@ -166,7 +166,11 @@ def replay(hist, *, stop, adapter, unit="seconds", compress=False, srv=None, tea
                 except Exception as e:
                     bad = mism("server restart", "server starts", "%s: %s" % (type(e).__name__, e))
             elif op == "Tear":
-                (tear or default_tear)(srv, h["i"])
+                try:
+                    (tear or default_tear)(srv, h["i"])
+                except FileNotFoundError:
+                    # the specification tears a state file only where one exists: the instance was externalised
+                    bad = mism("externalised state of instance %s" % h["i"], "a state file", "no state file")
             else:
                 bad = mism("unknown op", op, None)
             if observe is not None and op not in ("Tick", "Tear", "Crash"):
